@@ -269,6 +269,14 @@ func (s *Set) registerFlags(tmpl reflect.Value, ptyp reflect.Type) error {
 			return fmt.Errorf("cannot register a flag for field %q: %s tag %q is more than one ASCII character",
 				sf.Name, common.DialsPFlagShortTag, shorthand)
 		}
+		if shorthand != "" {
+			if other := s.Flags.ShorthandLookup(shorthand); other != nil {
+				// pflag panics in FlagSet.AddFlag when a shorthand is defined twice (two
+				// fields with the same tag, or a tagged field inside an aliased struct)
+				return fmt.Errorf("cannot register a flag for field %q: shorthand %q (%s tag) is already used for flag %q",
+					sf.Name, shorthand, common.DialsPFlagShortTag, other.Name)
+			}
+		}
 		var f interface{}
 
 		switch {
